@@ -64,6 +64,16 @@ def check(facts, rep, tier, cfg):
             else:
                 rep.bad("C11.R1", "host-len-bound", where,
                         "the Datagram send is not dominated by `target_host.len() <= 255` (the u8 wire field): accepted set of host lengths differs from 0..=255 (encoder panics / valid hosts refused)")
+            # accepted = queued: no Ok return of the sending function bypasses the queue send
+            oks = [x for x, blk in enumerate(b.blocks) if not blk["cleanup"] for st in blk["stmts"]
+                   if st["k"] == "Assign" and st["lhs"]["l"] == 0 and not st["lhs"].get("p") and st["rv"]["k"] == "Aggregate"
+                   and st["rv"]["agg"].get("variant") == "Ok"]
+            if oks and all(b.dominates(bi, x) for x in oks):
+                rep.ok("C11.R1", "accepted-means-queued", where, "every Ok(()) of the sender is dominated by the queue send")
+            else:
+                rep.bad("C11.R1", "accepted-means-queued", where,
+                        "the sending function can return Ok(()) without queueing the Datagram frame (special-cased input): an accepted datagram is "
+                        "lost although the connection is up and the receiver's buffer has room")
             roles = []
             for a in cn[3]:
                 roles.append(sorted(rules_c03.top_roles(a)))
